@@ -215,6 +215,9 @@ def badProgs : List BadText := [
   { src := "q9 = not 1;", code := Gen.EXC_PARSE_TYPE_MISMATCH_S, col := 11 },
   { src := "print 1 +;", code := Gen.EXC_PARSE_UNEXPECTED_LEX_S, col := 10 },
   { src := "if true then q9 = 1; else q9 = ; end if;", code := Gen.EXC_PARSE_UNEXPECTED_LEX_S, col := 32, newSyms := [("Q9", Ty.int)] },
+  -- a function declaration that fails in its body declares nothing; a call of it is then refused
+  { src := "function g9(x) return integer is begin return x + ; end;", code := Gen.EXC_PARSE_UNEXPECTED_LEX_S, col := 51 },
+  { src := "q9 = g9(1);", code := Gen.EXC_PARSE_UNDEFINED_SYMBOL_S, col := 6 },
   -- the two below also LEAK on the pinned tree (known findings C15.leak_*): kept at the end so that
   -- the generator can address the leak-free prefix separately
   { src := "q9 = \"abc\" - 1;", code := Gen.EXC_PARSE_TYPE_MISMATCH_S, col := 15 },
